@@ -88,6 +88,14 @@ var scalars = []types.Value{
 	must(types.ParseIPAddr("0:0:0:0:0:0:0:1")),                // 30 = 29
 	must(types.ParseDuration("1ms")),                          // 31 = 3
 	must(types.NewDecimal(1, -4)),                             // 32 = 2
+	// longs that are not exactly representable as float64, and the extremes
+	types.Long(9007199254740993),     // 33
+	types.Long(9007199254740992),     // 34
+	types.Long(4611686018427387905),  // 35
+	types.Long(4611686018427387906),  // 36
+	types.Long(9223372036854775807),  // 37
+	types.Long(-9223372036854775808), // 38
+	types.Long(1234567890123456789),  // 39
 }
 
 // canon maps a universe index to the index of the canonical spelling of the same value.
@@ -255,7 +263,7 @@ func (h *heap) add(l *live) {
 
 // step performs one tape-chosen operation; it returns a description.
 func (h *heap) step(t *verifsim.Tape) (string, *core.Violation) {
-	switch op := t.Intn(14); op {
+	switch op := t.Intn(16); op {
 	case 0, 1, 2: // NewSet from a buffer
 		n := t.Intn(6)
 		buf := make([]types.Value, 0, n+2)
@@ -398,6 +406,39 @@ func (h *heap) step(t *verifsim.Tape) (string, *core.Violation) {
 		}
 		h.add(&live{item: item{out, l.m}})
 		return "JSON round trip of " + l.m.String(), nil
+	case 14: // decode JSON into a variable that already holds a copy of a live value
+		if len(h.vals) < 2 {
+			return "noop", nil
+		}
+		dst := h.vals[t.Intn(len(h.vals))]
+		src := h.vals[t.Intn(len(h.vals))]
+		b, err := json.Marshal(src.v)
+		if err != nil {
+			return "", viol("json-encode-error", "json.Marshal(%s) failed: %v", src.m, err)
+		}
+		switch x := dst.v.(type) {
+		case types.Record:
+			if src.m.kind != 'R' {
+				return "noop", nil
+			}
+			rv := x // a shallow copy, as every assignment of a Record is
+			if err := rv.UnmarshalJSON(b); err != nil {
+				return "", viol("json-decode-error", "Record.UnmarshalJSON(%s) failed: %v", b, err)
+			}
+			h.add(&live{item: item{rv, src.m}})
+			return "decode the JSON of " + src.m.String() + " into a variable holding a copy of " + dst.m.String(), nil
+		case types.Set:
+			if src.m.kind != 'S' {
+				return "noop", nil
+			}
+			sv := x
+			if err := sv.UnmarshalJSON(b); err != nil {
+				return "", viol("json-decode-error", "Set.UnmarshalJSON(%s) failed: %v", b, err)
+			}
+			h.add(&live{item: item{sv, src.m}})
+			return "decode the JSON of " + src.m.String() + " into a variable holding a copy of " + dst.m.String(), nil
+		}
+		return "noop", nil
 	case 9: // Cedar text round trip
 		if len(h.vals) == 0 {
 			return "noop", nil
